@@ -1,6 +1,9 @@
 package main
 
 import (
+	"fmt"
+	"github.com/ldclabs/cose/cose"
+	"github.com/ldclabs/cose/cwt"
 	"math/rand"
 	"sort"
 	"strconv"
@@ -51,25 +54,45 @@ func execMap(op string, a []string) string {
 		v, _ := parseVal(a, 0)
 		m[1] = v
 	}
+	// the typed views (cose.Headers, cwt.ClaimsMap, key.Key) answer through wrappers: they must agree with CoseMap
+	h, cm, kk := cose.Headers(m), cwt.ClaimsMap(m), key.Key(m)
+	same := func(ans string, others ...string) string {
+		for _, o := range others {
+			if o != ans {
+				return "WRAPPER-DISAGREES " + ans + " vs " + o
+			}
+		}
+		if h.Has(1) != m.Has(1) || cm.Has(1) != m.Has(1) || kk.Has(1) != m.Has(1) || fmt.Sprint(h.Get(1)) != fmt.Sprint(m.Get(1)) ||
+			fmt.Sprint(cm.Get(1)) != fmt.Sprint(m.Get(1)) || fmt.Sprint(kk.Get(1)) != fmt.Sprint(m.Get(1)) {
+			return "WRAPPER-DISAGREES Has/Get"
+		}
+		return ans
+	}
 	switch op {
 	case "map.getint":
-		v, err := m.GetInt(1)
-		return resStr(v, err, strconv.Itoa)
+		f := func(v int, err error) string { return resStr(v, err, strconv.Itoa) }
+		return same(f(m.GetInt(1)), f(h.GetInt(1)), f(cm.GetInt(1)), f(kk.GetInt(1)))
 	case "map.getint64":
-		v, err := m.GetInt64(1)
-		return resStr(v, err, func(x int64) string { return strconv.FormatInt(x, 10) })
+		f := func(v int64, err error) string {
+			return resStr(v, err, func(x int64) string { return strconv.FormatInt(x, 10) })
+		}
+		return same(f(m.GetInt64(1)), f(h.GetInt64(1)), f(cm.GetInt64(1)), f(kk.GetInt64(1)))
 	case "map.getuint64":
-		v, err := m.GetUint64(1)
-		return resStr(v, err, func(x uint64) string { return strconv.FormatUint(x, 10) })
+		f := func(v uint64, err error) string {
+			return resStr(v, err, func(x uint64) string { return strconv.FormatUint(x, 10) })
+		}
+		return same(f(m.GetUint64(1)), f(h.GetUint64(1)), f(cm.GetUint64(1)), f(kk.GetUint64(1)))
 	case "map.getbytes":
-		v, err := m.GetBytes(1)
-		return resStr(v, err, hxOpt)
+		f := func(v []byte, err error) string { return resStr(v, err, hxOpt) }
+		return same(f(m.GetBytes(1)), f(h.GetBytes(1)), f(cm.GetBytes(1)), f(kk.GetBytes(1)))
 	case "map.getbool":
-		v, err := m.GetBool(1)
-		return resStr(v, err, strconv.FormatBool)
+		f := func(v bool, err error) string { return resStr(v, err, strconv.FormatBool) }
+		return same(f(m.GetBool(1)), f(h.GetBool(1)), f(cm.GetBool(1)), f(kk.GetBool(1)))
 	case "map.getstring":
-		v, err := m.GetString(1)
-		return resStr(v, err, func(s string) string { return hx([]byte(s)) })
+		f := func(v string, err error) string {
+			return resStr(v, err, func(s string) string { return hx([]byte(s)) })
+		}
+		return same(f(m.GetString(1)), f(h.GetString(1)), f(cm.GetString(1)), f(kk.GetString(1)))
 	case "map.set":
 		// map.set <label value> : does Set accept the label?  answer: normalised label
 		mm := key.CoseMap{}
